@@ -1,6 +1,6 @@
 (* C10 — Responses are framed exactly: ; between units, , between data, one final NL
    Statements only: each theorem is closed by `exact` of a lemma proved in the *_proofs.v files. *)
-From VF Require Import Base Gen_Errors Gen_Consts Fmt Lexer Response Tree Resp_proofs.
+From VF Require Import Base Gen_Errors Gen_Consts Fmt Lexer Grammar Response Tree HeaderSpec MessageSpec Resp_proofs Message_proofs Message_proofs2.
 Open Scope N_scope.
 
 Section C10_statements.
@@ -26,8 +26,34 @@ Theorem C10_event_writes_nothing : forall (p : hprog D) toks f toks' d f' r,
   run_prog p toks f None = (toks', d, f', r) -> f' = f.
 Proof. apply event_writes_nothing. Qed.
 
+Theorem C10_spec_message_framing : forall (root : tree D) (m : msg) (d : D) r,
+  spec_message root m d (mkFmt None []) = r -> r_err r = None ->
+  Forall (fun t => t <> []) (unit_texts (r_trace r)) ->
+  r_out r = match unit_texts (r_trace r) with [] => [] | us => intercalate [59] us ++ [10] end.
+Proof. apply spec_message_framing. Qed.
+
+Theorem C10_message_semantics_empty : forall (root : tree D) (w : list byte) (nl : bool) (d : D) (f : fmt),
+  wf_ws w = true ->
+  run root (w ++ (if nl then [10] else [])) d f = Val (spec_message root (mkMsg w [] nl) d f).
+Proof. apply message_semantics_empty. Qed.
+
+Theorem C10_message_semantics_trailing_separator : forall (root : tree D) (m : msg) (w : list byte) (d : D) (f : fmt),
+  wf_tree root -> wf_msg m = true -> wf_ws w = true ->
+  run root (m_lead m ++ render_units (m_units m) ++ 59 :: w ++ (if m_nl m then [10] else [])) d f
+  = Val (spec_message root m d f).
+Proof. apply message_semantics_trailing_separator. Qed.
+
+Theorem C10_message_semantics : forall (root : tree D) (m : msg) (d : D) (f : fmt),
+  wf_tree root -> wf_msg m = true ->
+  run root (render_msg m) d f = Val (spec_message root m d f).
+Proof. apply message_semantics. Qed.
+
 End C10_statements.
 
 Print Assumptions C10_framing.
 Print Assumptions C10_unit_text_structure.
 Print Assumptions C10_event_writes_nothing.
+Print Assumptions C10_spec_message_framing.
+Print Assumptions C10_message_semantics_empty.
+Print Assumptions C10_message_semantics_trailing_separator.
+Print Assumptions C10_message_semantics.
